@@ -12,6 +12,8 @@ of _parse_format, sec_met domain label, number lists - fn 7-12; see qualifier_co
  (c) whole records (genes with gene functions, codon_start, PFAM / aSDomain / motif features, sideloaded
      areas, linear and circular, origin-spanning genes and areas): canonical dumps of the original and the
      reloaded record and the text fixed point, on the real code only (Biopython / orjson are not modelled).
+Repaired findings (C10-F60 core leak, F61 notes duplicated, F62 tool prefix recursion, F64 empty gene ontologies) are not
+suppressed: their witnesses form the regression corpus (regression_corpus, ASTOOL_CORPUS), run first.
 """
 import io
 import json as pyjson
@@ -200,11 +202,13 @@ def codec_cases(chk, total):
 
 # ---------------------------------------------------------------- (d) qualifier codec stream
 
-KNOWN_CLASS4 = "sideloaded_tool_prefix_recursion"
 KNOWN_CLASS5 = "gene_function_description_colon"
-KNOWN_CLASS6 = "sideloaded_protocluster_core_leak"
-KNOWN_CLASS7 = "notes_duplicated_on_write"
-KNOWN_CLASS8 = "pfam_empty_gene_ontologies"
+# repaired (known_findings.json status fixed): nothing is suppressed or skipped for these classes any more, the generators
+# keep producing their members and the recorded witnesses are in the regression corpus (ASTOOL_CORPUS, regression_corpus)
+REPAIRED_CLASS4 = "sideloaded_tool_prefix_recursion"      # C10-F62
+REPAIRED_CLASS6 = "sideloaded_protocluster_core_leak"     # C10-F60
+REPAIRED_CLASS7 = "notes_duplicated_on_write"             # C10-F61
+REPAIRED_CLASS8 = "pfam_empty_gene_ontologies"            # C10-F64
 
 EXT_PREFIX = "externally annotated"
 GF_TOOLS = ["rule-based-clusters", "smcogs", "resist", "t2pks", "lanthipeptides", "mite", "halogenases", "x"]
@@ -232,7 +236,7 @@ def awkward_text(rng, long_ok=True):
 def gen_tool_name(rng):
     r = rng.random()
     if r < 0.04:
-        return EXT_PREFIX + rng.choice(["", " by me", " by: someone", ": x", "ly"])       # the recursion class
+        return EXT_PREFIX + rng.choice(["", " by me", " by: someone", ": x", "ly"])       # the repaired recursion class
     if r < 0.10:
         return rng.choice(["a: b", "a: b: c", ": a", "a: ", "a:b", "externally", "external annotation: x", "by: x",
                            "in-house pipeline: pass 2"])
@@ -329,34 +333,44 @@ def ascii_only(text):
     return all(ord(c) < 127 for c in text)
 
 
-def qualifier_codec_cases(chk, total, prefix_listed, colon_listed):
+# regression corpus of the aStool codec, run first: (kind, tool) with kind 0 sideloaded subregion, 1 sideloaded
+# protocluster.  The witness of the repaired finding C10-F62 (reading recursed until RecursionError) and its variants
+ASTOOL_CORPUS = [(0, "externally annotated by me"), (1, "externally annotated by me"), (0, "externally annotated by: someone"),
+                 (1, "externally annotated by: someone"), (0, "externally annotated"), (1, "externally annotated: x"),
+                 (0, "externally annotatedly"), (1, "externally annotated by: externally annotated by: x")]
+
+
+def qualifier_codec_cases(chk, total, colon_listed):
     """ fn 7-12: aStool composition / decomposition, gene function text form, _parse_format on the sec_met domain
         label, number lists.  Returns (cases, outs). """
     from antismash.common.secmet.qualifiers.secmet import SecMetQualifier, _parse_format
     rng = chk.rng
     cases, outs = [], []
     reported = {"tool": 0, "gfa": 0}
+    corpus = list(ASTOOL_CORPUS)
     for _ in range(total):
         r = rng.random()
-        if r < 0.22:
+        if corpus or r < 0.22:
             # aStool written by the real classes, compared with the model, and read back (the property on the codec)
-            kind = rng.randrange(3)
-            tool = gen_tool_name(rng)
+            if corpus:
+                kind, tool = corpus.pop(0)
+                chk.count("qual_astool_regression_corpus")
+            else:
+                kind = rng.randrange(3)
+                tool = gen_tool_name(rng)
             text = real_astool(kind, tool)
             flat = [PROP, 7, int(kind != 2)] + enc_str(tool)
             out = enc_str(text)
             chk.count("qual_astool_write")
             back = real_astool_decode(0 if kind in (0, 2) else 1, text)
             expect = [0, int(kind != 2)] + enc_str(tool)
+            if kind != 2 and tool.startswith(EXT_PREFIX):
+                chk.count("qual_astool_sideloaded_tool_with_prefix")          # members of the repaired class C10-F62
             if back != expect:
-                if tool.startswith(EXT_PREFIX):
-                    chk.count("qual_astool_roundtrip_fails_in_class_" + KNOWN_CLASS4)
-                    if not prefix_listed and reported["tool"] < 2:
-                        reported["tool"] += 1
-                        chk.violation("counterexample", "an area whose tool name starts with 'externally annotated' cannot be "
-                                      "read back", {"theorem_or_correspondence": "C10_astool_codec", "function": 8,
-                                                    "input": {"tool": tool, "kind": kind, "qualifier": text},
-                                                    "implementation": back, "expected": expect})
+                if kind == 2 and tool.startswith(EXT_PREFIX):
+                    # outside the quantifier (the proviso left in C10_astool_codec, C10_astool_marker_reserved): the tool of
+                    # an ordinary area is one of antiSMASH's module names, the prefix marks the sideloaded classes
+                    chk.count("qual_astool_ordinary_tool_with_reserved_prefix_outside_quantifier")
                 elif reported["tool"] < 2:
                     reported["tool"] += 1
                     chk.violation("counterexample", "the tool name of an area is not recovered from its aStool qualifier",
@@ -767,6 +781,7 @@ def gen_whole_record(rng, counts):
                                                   AntismashDomain, Gene)
     from antismash.common.secmet.features.protocluster import SideloadedProtocluster
     from antismash.common.secmet.features.subregion import SideloadedSubRegion
+    from antismash.common.secmet.qualifiers import GOQualifier
     from antismash.common.secmet.qualifiers.gene_functions import GeneFunction
     from antismash.common.secmet.locations import FeatureLocation as FL, CompoundLocation as CL
     n = rng.choice([600, 900, 1500])
@@ -838,6 +853,12 @@ def gen_whole_record(rng, counts):
                 dom = PFAMDomain(loc, "desc", FL(ps_, pe_), "PF00001", "test_tool", g.get_name(), domain="dom")
                 dom.version = 1
                 dom.domain_id = f"pf_{g.get_name()}_{ps_}_{pe_}"
+                if rng.random() < 0.3:      # pfam2go ran and found terms; otherwise the attribute stays None
+                    dom.gene_ontologies = GOQualifier(dict(rng.sample([("GO:0004871", "signal transducer activity"),
+                                                                        ("GO:0007165", "signal transduction"),
+                                                                        ("GO:0016020", "membrane: part of it")],
+                                                                       rng.choice([1, 2, 3]))))
+                    counts["pfam_domain_with_gene_ontologies"] += 1
                 record.add_pfam_domain(dom)
                 counts["pfam_domain"] += 1
             if rng.random() < 0.3:
@@ -943,7 +964,7 @@ def enrich(rng, record, genes, counts, n, circular):
                     desc = awkward_text(rng).replace(":", "")
                 g.gene_functions.add(function, tool, desc, product)
                 counts["gene_function_" + str(function)] += 1
-            if rng.random() < 0.25 and not g._qualifiers.get("note"):  # pylint: disable=protected-access
+            if rng.random() < 0.25:
                 for _ in range(rng.choice([1, 2, 3])):
                     g.notes.append(awkward_text(rng))
                 counts["cds_awkward_notes"] += 1
@@ -1068,6 +1089,9 @@ def describe_record(record):
                 except (AttributeError, ValueError):
                     continue
                 entry[attr] = list(val) if isinstance(val, (list, tuple)) else val
+            if kind == "PFAM_domain":
+                # None (no ontologies) is not the same as an empty qualifier: the latter is written as gene_ontologies=[]
+                entry["gene_ontologies"] = None if d.gene_ontologies is None else dict(d.gene_ontologies.go_entries)
             out[f"{kind} {d.get_name()}"] = entry
     for m in record.get_modules():
         out[f"module {m.location} {m.domains[0].get_name()}"] = {"location": str(m.location), "domains": [d.get_name() for d in m.domains],
@@ -1119,26 +1143,6 @@ def colon_function_only(diffs, built_desc):
     return bool(diffs)
 
 
-def core_leak_only(canon1, canon2, built):
-    """ the second file differs from the first only in proto_core features of sideloaded protoclusters, which gained
-        exactly category and core_location """
-    from antismash.common.secmet.features.protocluster import SideloadedProtocluster
-    if len(canon1) != len(canon2):
-        return False
-    cores = {str(p.core_location) for p in built.get_protoclusters() if isinstance(p, SideloadedProtocluster)}
-    found = False
-    for a, b in zip(canon1, canon2):
-        if a == b:
-            continue
-        if a[0] != "proto_core" or b[0] != "proto_core" or a[1] != b[1] or a[1] not in cores:
-            return False
-        gained = {k: v for k, v in b[2].items() if k not in a[2]}
-        if set(gained) - {"category", "core_location"} or any(a[2][k] != b[2][k] for k in a[2]) or set(a[2]) - set(b[2]):
-            return False
-        found = True
-    return found
-
-
 def has_note_overlap(record):
     """ a feature holding notes both in its leftover qualifiers and in .notes (Feature.to_biopython extends the former
         in place on every call) """
@@ -1155,9 +1159,8 @@ def first_write_stage(chk, built, counts, listed):
     from Bio import SeqIO
     from antismash.common.secmet import Record
     from antismash.common import serialiser, json
-    note_overlap = has_note_overlap(built)
-    if note_overlap:
-        counts["records_in_class_" + KNOWN_CLASS7] += 1
+    if has_note_overlap(built):
+        counts["records_with_leftover_and_added_notes"] += 1         # members of the repaired class C10-F61
     before = describe_record(built)
     reread = None
     for path in ("genbank", "json"):
@@ -1181,8 +1184,6 @@ def first_write_stage(chk, built, counts, listed):
                 cls = None
                 if colon_function_only([one], before):
                     cls = KNOWN_CLASS5
-                elif note_overlap and one[1] == "notes" and set(one[2]) == set(one[3]):
-                    cls = KNOWN_CLASS7          # the same notes, some of them repeated
                 problems.append(("reloaded record differs field by field",
                                  (one[0], one[1], repr(one[2])[:300], repr(one[3])[:300]), cls))
             if len(canon0) != len(canon1):
@@ -1192,26 +1193,13 @@ def first_write_stage(chk, built, counts, listed):
                 if a == b:
                     continue
                 keys = sorted(k for k in set(a[2]) | set(b[2]) if a[2].get(k) != b[2].get(k))
-                cls = None
-                if a[:2] != b[:2]:
-                    cls = None
-                elif a[0] == "proto_core" and core_leak_only([a], [b], built):
-                    cls = KNOWN_CLASS6
-                elif a[0] == "PFAM_domain" and keys == ["gene_ontologies"] and "gene_ontologies" not in a[2] \
-                        and b[2]["gene_ontologies"] == []:
-                    cls = KNOWN_CLASS8
-                elif note_overlap and keys == ["note"]:
-                    cls = KNOWN_CLASS7
                 problems.append(("second output differs from the first (not a fixed point)",
                                  (a[0], a[1], b[0], b[1], keys, [repr(a[2].get(k))[:120] for k in keys],
-                                  [repr(b[2].get(k))[:120] for k in keys]), cls))
+                                  [repr(b[2].get(k))[:120] for k in keys]), None))
         except RecursionError:
             areas = list(built.get_subregions()) + list(built.get_protoclusters())
-            cls = None
-            if any(getattr(a, "extra_qualifiers", None) is not None and a.tool.startswith(EXT_PREFIX) for a in areas):
-                cls = KNOWN_CLASS4
             problems.append(("reload does not terminate (RecursionError)",
-                             [a.tool for a in areas if hasattr(a, "extra_qualifiers")], cls))
+                             [a.tool for a in areas if hasattr(a, "extra_qualifiers")], None))
         except Exception as exc:  # pylint: disable=broad-except
             problems.append((f"reload raised {type(exc).__name__}: {exc}"[:200], None, None))
         if not problems:
@@ -1339,8 +1327,7 @@ def whole_record_stream(chk, total, known_listed, known2_listed, known3_listed=F
             continue
         if any(getattr(a, "extra_qualifiers", None) is not None and a.tool.startswith(EXT_PREFIX)
                for a in list(built.get_subregions()) + list(built.get_protoclusters())):
-            counts["records_in_class_" + KNOWN_CLASS4] += 1
-            continue        # cannot be reloaded at all: judged in stage 0
+            counts["records_with_sideloaded_tool_prefix"] += 1          # members of the repaired class C10-F62
         try:
             # the record under test is obtained by parsing once: header annotations in Biopython's normal form
             _bio, text0 = write_genbank(built)
@@ -1449,15 +1436,23 @@ def plain_record(n=400):
 
 
 def witness4_reproduces():
-    """ a sideloaded subregion whose tool name starts with 'externally annotated' cannot be read back """
+    """ a sideloaded subregion / protocluster whose tool name starts with 'externally annotated' cannot be read back
+        (RecursionError), or not as the same class with the same tool name """
+    from antismash.common.secmet.features.protocluster import SideloadedProtocluster
     from antismash.common.secmet.features.subregion import SideloadedSubRegion
     from antismash.common.secmet.locations import FeatureLocation as FL
+    tool = "externally annotated by me"
     record = plain_record()
-    record.add_subregion(SideloadedSubRegion(FL(10, 40, 1), tool="externally annotated by me"))
-    try:
-        roundtrip_json(record)
-    except RecursionError:
-        return True
+    record.add_subregion(SideloadedSubRegion(FL(10, 40, 1), tool=tool))
+    record.add_protocluster(SideloadedProtocluster(FL(120, 130, 1), FL(110, 140, 1), tool, "prodA", neighbourhood_range=10))
+    for route in (roundtrip_json, roundtrip_genbank):
+        try:
+            _bio, _text, reloaded = route(record)
+        except RecursionError:
+            return True
+        areas = list(reloaded.get_subregions()) + list(reloaded.get_protoclusters())
+        if [(type(a), a.tool) for a in areas] != [(SideloadedSubRegion, tool), (SideloadedProtocluster, tool)]:
+            return True
     return False
 
 
@@ -1476,7 +1471,7 @@ def witness6_reproduces():
     bio2, _text2 = write_json(reloaded)
     core1 = [f for f in bio1.features if f.type == "proto_core"][0]
     core2 = [f for f in bio2.features if f.type == "proto_core"][0]
-    return "core_location" not in core1.qualifiers and "core_location" in core2.qualifiers
+    return dict(core1.qualifiers) != dict(core2.qualifiers)
 
 
 def witness7_reproduces():
@@ -1489,8 +1484,7 @@ def witness7_reproduces():
     record.get_cds_by_name("g").notes.append("added")
     first = [f.qualifiers["note"] for f in record.to_biopython().features if f.type == "CDS"][0]
     second = [f.qualifiers["note"] for f in record.to_biopython().features if f.type == "CDS"][0]
-    return list(first) != list(second)
-
+    return list(first) != list(second) or sorted(first) != ["added", "from input"]
 
 
 def witness8_reproduces():
@@ -1506,7 +1500,30 @@ def witness8_reproduces():
     bio2, _text2 = write_json(reloaded)
     first = [f for f in bio1.features if f.type == "PFAM_domain"][0]
     second = [f for f in bio2.features if f.type == "PFAM_domain"][0]
-    return "gene_ontologies" not in first.qualifiers and second.qualifiers.get("gene_ontologies") == []
+    return reloaded.get_pfam_domains()[0].gene_ontologies is not None or dict(first.qualifiers) != dict(second.qualifiers)
+
+
+# regression corpus, run first on every run: the recorded witnesses of the repaired findings (known_findings.json, status
+# fixed).  Each function returns True when the defective behaviour is back.
+REGRESSION_CORPUS = [("C10-F62", REPAIRED_CLASS4, witness4_reproduces), ("C10-F60", REPAIRED_CLASS6, witness6_reproduces),
+                     ("C10-F61", REPAIRED_CLASS7, witness7_reproduces), ("C10-F64", REPAIRED_CLASS8, witness8_reproduces)]
+
+
+def regression_corpus(chk):
+    for ident, cls, witness in REGRESSION_CORPUS:
+        chk.count("regression_corpus_witnesses")
+        chk.evaluations += 1
+        try:
+            back = witness()
+            error = None
+        except Exception as exc:  # pylint: disable=broad-except
+            back, error = True, f"{type(exc).__name__}: {exc}"[:300]
+        if back:
+            chk.violation("counterexample", f"the witness of the repaired finding {ident} ({cls}) fails again: "
+                          + (witness.__doc__ or "").strip(),
+                          {"theorem_or_correspondence": "regression corpus (whole-record round trip, real code)",
+                           "finding": ident, "class": cls, "witness": witness.__name__, "error": error,
+                           "details": (witness.__doc__ or "").strip()})
 
 
 # ---------------------------------------------------------------- run
@@ -1529,7 +1546,12 @@ RULE = ("(a) codec: text locations with all three position kinds, four strand sp
         "is compared field by field (attributes read from the objects) with its reloaded self through both routes and its "
         "first output with the second, every difference attributed on its own to a recorded class or reported.  (d) "
         "qualifier codecs against the model: aStool written by the real area classes and read back, gene function text "
-        "form written / read (also 1-2 character mutations), _parse_format on the sec_met domain label, number lists.")
+        "form written / read (also 1-2 character mutations), _parse_format on the sec_met domain label, number lists.  "
+        "Regression corpus, run first: the witnesses of the repaired findings C10-F60, F61, F62, F64 on the real code and "
+        "eight sideloaded tool names starting with 'externally annotated' in the aStool stream; the generators keep "
+        "producing members of those classes (sideloaded tool names with the prefix, genes with leftover /note plus added "
+        "notes, PFAM domains with and without gene ontologies, sideloaded protoclusters) and nothing is suppressed for them; "
+        "only the tool name of an ORDINARY area with that prefix (no antiSMASH module has one) is outside the quantifier.")
 
 
 def run(chk):
@@ -1538,6 +1560,7 @@ def run(chk):
         return chk.finish(RULE)
     quick = chk.tier == "quick"
     rng = chk.rng
+    regression_corpus(chk)
     entry = known_entry(KNOWN_CLASS)
     entry2 = known_entry(KNOWN_CLASS2)
     entry3 = known_entry(KNOWN_CLASS3)
@@ -1550,9 +1573,8 @@ def run(chk):
     chk.crosscheck_vm(cases, model, k=100 if quick else 600)
 
     # (d) qualifier codecs
-    entry4, entry5, entry6, entry7, entry8 = (known_entry(c) for c in (KNOWN_CLASS4, KNOWN_CLASS5, KNOWN_CLASS6, KNOWN_CLASS7,
-                                                                       KNOWN_CLASS8))
-    q_cases, q_outs = qualifier_codec_cases(chk, 6000 if quick else 80000, entry4 is not None, entry5 is not None)
+    entry5 = known_entry(KNOWN_CLASS5)
+    q_cases, q_outs = qualifier_codec_cases(chk, 6000 if quick else 80000, entry5 is not None)
     q_model = common.correspondence(chk, q_cases, q_outs, describe=lambda flat: {"function": flat[1], "payload": flat[2:]},
                                     label="qualifier codecs (aStool, gene function text, _parse_format, number lists)")
     chk.crosscheck_vm(q_cases, q_model, k=60 if quick else 400)
@@ -1637,8 +1659,7 @@ def run(chk):
 
     # (c) whole records
     listed = {KNOWN_CLASS: known_listed, KNOWN_CLASS2: entry2 is not None, KNOWN_CLASS3: entry3 is not None,
-              KNOWN_CLASS4: entry4 is not None, KNOWN_CLASS5: entry5 is not None, KNOWN_CLASS6: entry6 is not None,
-              KNOWN_CLASS7: entry7 is not None, KNOWN_CLASS8: entry8 is not None}
+              KNOWN_CLASS5: entry5 is not None}
     whole_record_stream(chk, 250 if quick else 4000, known_listed, entry2 is not None, entry3 is not None, listed)
 
     if known_listed and reproduces(witness_reproduces):
@@ -1656,10 +1677,8 @@ def run(chk):
                                                    ("b", "[89:260](+)", "core [150:200](+)")]}})
     if entry3 is not None and reproduces(witness3_reproduces):
         chk.known(entry3["what_fails"])
-    for ent, wit in ((entry4, witness4_reproduces), (entry5, witness5_reproduces), (entry6, witness6_reproduces),
-                     (entry7, witness7_reproduces), (entry8, witness8_reproduces)):
-        if ent is not None and reproduces(wit):
-            chk.known(ent["what_fails"])
+    if entry5 is not None and reproduces(witness5_reproduces):
+        chk.known(entry5["what_fails"])
     chk.extra["not_modelled"] = ("Biopython GenBank writer/reader (line wrapping, header), orjson, qualifier codecs of gene-level "
                                  "features: covered by the whole-record stream only")
     return chk.finish(RULE, trusted_extra=("Biopython 1.81 SeqIO GenBank writer/reader and orjson are exercised, not modelled",))
